@@ -43,7 +43,7 @@ impl std::error::Error for LeafErr {}
 /// A leaf: either a marker (counts its invocations and returns the member it stands for) or
 /// one of the real selectors.
 pub enum LeafSel {
-    Marker { id: usize },
+    Marker { id: usize, fail: bool },
     Best,
     Worst,
     Random,
@@ -57,9 +57,12 @@ impl Selector<Pop> for LeafSel {
     type Error = LeafErr;
     fn select<'p, R: Rng + ?Sized>(&self, pop: &'p Pop, rng: &mut R) -> Result<&'p Probe, LeafErr> {
         match self {
-            Self::Marker { id } => {
+            Self::Marker { id, fail } => {
                 INVOKED.with(|l| l.borrow_mut().push(*id));
-                if pop.is_empty() {
+                if *fail {
+                    // a member that fails when it is delegated to
+                    Err(LeafErr(json!({"k": "marker_failed", "m": id})))
+                } else if pop.is_empty() {
                     Err(LeafErr(json!({"k": "empty_population"})))
                 } else {
                     Ok(&pop[(id - 1) % pop.len()])
@@ -118,7 +121,7 @@ impl Selector<Pop> for Node {
 
 fn leaf_sel(spec: &Value) -> LeafSel {
     match spec.get("sel").and_then(Value::as_str) {
-        None => LeafSel::Marker { id: u(&spec["m"]) as usize },
+        None => LeafSel::Marker { id: u(&spec["m"]) as usize, fail: spec.get("f").and_then(Value::as_bool).unwrap_or(false) },
         Some("best") => LeafSel::Best,
         Some("worst") => LeafSel::Worst,
         Some("random") => LeafSel::Random,
@@ -211,6 +214,11 @@ fn select_marker_tree(tree: &Value, node: &Node, pop: &Pop, rng: &mut SmallRng) 
             let j = err_json(&e, &mut p);
             if j["k"] == "zero_weight" && invoked.is_empty() {
                 json!({"k": "zero_weight"})
+            } else if j["k"] == "leaf_error" && j["err"]["k"] == "marker_failed" && invoked.len() == 1
+                && j["err"]["m"] == json!(invoked[0])
+            {
+                // the member delegated to failed: its error, located at its path, and nobody else was asked
+                json!({"k": "member_error", "path": j["at"], "m": invoked[0]})
             } else {
                 json!({"k": "error", "detail": j, "invoked": invoked})
             }
@@ -222,7 +230,7 @@ struct M(usize);
 impl Selector<Pop> for M {
     type Error = LeafErr;
     fn select<'p, R: Rng + ?Sized>(&self, pop: &'p Pop, rng: &mut R) -> Result<&'p Probe, LeafErr> {
-        LeafSel::Marker { id: self.0 }.select(pop, rng)
+        LeafSel::Marker { id: self.0, fail: false }.select(pop, rng)
     }
 }
 fn dyn_extend(d: DynWeighted<Pop>, id: usize, w: usize) -> DynWeighted<Pop> {
@@ -384,7 +392,7 @@ pub fn law(args: &[String]) -> i32 {
             for _ in 0..n {
                 let ob = select_marker_tree(&case["tree"], &node, &pop, &mut rng);
                 match ob["m"].as_u64() {
-                    Some(m) if ob["k"] == "chosen" && ob.as_object().expect("o").len() == 3 => counts[m as usize - 1] += 1,
+                    Some(m) if (ob["k"] == "chosen" || ob["k"] == "member_error") && ob.as_object().expect("o").len() == 3 => counts[m as usize - 1] += 1,
                     _ => other += 1,
                 }
             }
